@@ -550,7 +550,7 @@ pub fn add(cs: &mut Cases, rng: &mut Rng, tier: Tier) {
     one_doc(cs, "directed", &directed(), &GenCfg::default());
     let n = if tier == Tier::Quick { 60 } else { 1200 };
     for i in 0..n {
-        let ir = irrand::random_ir(rng, &irrand::Opts { max_types: 8, services: true, errors: false, keywords: true });
+        let ir = irrand::random_ir(rng, &irrand::Opts { max_types: 8, services: true, errors: false, keywords: true, rich_set_items: false });
         let cfg = GenCfg { exhaustive: rng.chance(1, 2), serialize_empty_collections: rng.chance(1, 2), strip_prefix: None, build_crate: None };
         one_doc(cs, &format!("seeded#{}", i), &ir, &cfg);
     }
